@@ -3,6 +3,7 @@
 package impl
 
 import (
+	"github.com/shopspring/decimal"
 	dtpb "github.com/google/fhir/go/proto/google/fhir/proto/r4/core/datatypes_go_proto"
 	"github.com/verily-src/fhirpath-go/fhirpath/internal/expr"
 	"github.com/verily-src/fhirpath-go/fhirpath/system"
@@ -106,6 +107,8 @@ func verifItemKind(label string, kind int) any {
 		return system.String(verifrt.NondetString(label+".s", 1))
 	case 2:
 		return &dtpb.Integer{Value: int32(verifrt.NondetIntRange(label+".fi", 0, 3))}
+	case 4: // a Decimal with an integral value written with one decimal place: 2.0 = 2 under FHIRPath equality
+		return system.Decimal(decimal.New(int64(verifrt.NondetIntRange(label+".dec", 0, 3))*10, -1))
 	default:
 		return &dtpb.HumanName{Family: &dtpb.String{Value: verifrt.NondetString(label+".fam", 1)}}
 	}
@@ -117,6 +120,9 @@ func verifSame(a, b any) bool {
 	case system.Integer:
 		y, ok := b.(system.Integer)
 		return ok && x == y
+	case system.Decimal:
+		y, ok := b.(system.Decimal)
+		return ok && decimal.Decimal(x).Equal(decimal.Decimal(y))
 	case system.String:
 		y, ok := b.(system.String)
 		return ok && x == y
